@@ -570,7 +570,29 @@ Proof.
     destruct (parse_line (render_line (sline_core sl))) as [|adding ok e]; [discriminate Hls|].
     apply negb_true_iff in Hls. subst ok. injection Hrl as <-. right; right; left. split; reflexivity.
   - right; left; reflexivity.
-  - right; left; reflexivity.
+  - (* unspecified at line level; an accepted wildcard src= entry has a documented effect on the list *)
+    unfold doc_src_step.
+    destruct (sl_fields sl) as [|f0 [|fn rest]]; try (right; left; reflexivity).
+    destruct (doc_name (f_toks fn)); try (right; left; reflexivity).
+    destruct (parse_line (render_line (sline_core sl))) as [|adding ok e0]; [right; left; reflexivity|].
+    destruct adding; [|right; left; reflexivity]. destruct ok; [|right; left; reflexivity].
+    cbv zeta. set (e := unescape_asterisks e0) in *.
+    destruct (e_source e) as [|c0 s0] eqn:Es; [right; left; reflexivity|].
+    destruct (e_wild e) eqn:Ew; [|right; left; reflexivity].
+    unfold add_files in Hrl. rewrite Es, Ew in Hrl.
+    unfold doc_src_wild.
+    destruct (stageroot_tail (e_source e)) as [tail|] eqn:Et; [|right; left; reflexivity].
+    destruct (existsb (fun c => Ascii.eqb c c_bsl) (fst (pathsplit (clean tail)))) eqn:Eb; [right; left; reflexivity|].
+    destruct (glob t tail) as [| |ms] eqn:Eg; try (right; left; reflexivity).
+    cbv zeta.
+    pose proof (wildcard_src t (rl_list st) e tail ms Ht Et Eb Eg) as Hws. cbv zeta in Hws.
+    destruct (if e_ltype e =? V_FileType_dir then expand t ms else ms) as [|m0 mr] eqn:Ems;
+      [right; left; reflexivity|]. rewrite <- Ems in *.
+    destruct Hws as (l' & Hadd & Hl'); [rewrite Ems; discriminate|].
+    rewrite Hadd in Hrl. injection Hrl as <-.
+    right; right; right. eexists; exists l'. split; [reflexivity|]. split; [reflexivity|].
+    intros x. rewrite Hl', fold_nadd_in, in_map_iff. pose proof (Heqv x) as H1.
+    split; (intros [H|(m & Ha & Hb)]; [left; tauto|right; exists m; split; auto]).
 Qed.
 
 (* ------------------------------------------------------------------ the script *)
